@@ -6,8 +6,18 @@ PY = "/venv/bin/python"
 CLAIMED = {
  "C10": ("3.C10", "Seeded simulation of a client that owns 1-4 game descriptions and issues sequences of solves (same object, fresh object, toggled pruning flag, run_games batches, restarts) under seeded log level, stack depth, PRNG pollution and Ctrl-C/kill at a seeded step; after every op every description must be type- and bit-identical to its snapshot and every completed solve must equal what a never-used forked process returns for that description and flag.",
          "Sampling, not proof. Oracle = same code in a pristine forked process on a private copy (decides repeatability/isolation, not numerical correctness). Games whose pristine solve diverges are discarded."),
+ "C11": ("3.C11", "Seeded simulation of the generator -> file -> reader -> solver pipeline across process restarts on one simulated disk: CLI and manual entry point on tiny/small/wide/tall boards and near-0/near-1 probabilities, planted longer/torn/garbage files at the target path, OSError at open/n-th write/close, Ctrl-C/kill inside the writer followed by clean regeneration; after every normal exit: exactly one file, byte-identical to what an empty disk gets, loads to game_a/b/c, structure and validation hold, and each game is solved or reported unsolvable within a step-clock bound that separates divergence from slow convergence.",
+         "Sampling, not proof. Divergence = constant per-sweep diff over 500 sweeps (read from the live frame); cap hits are inconclusive, never violations. Solve clause exercised for break probabilities in [0.01,0.99]. One open known finding (diagnostic diverges)."),
+ "C12": ("3.C12", "Seeded simulation of batch runs through the API (re-using the same dict objects across batches) and through the CLI (write file, restart, main()) in seeded orders/subsets with failing games first/between/last/all, under clock steps, jumps and freezes, log levels and stack depth; every entry must equal what a never-used forked process returns for solving that game alone, failures must be recorded as messages and must not affect neighbours, keys must be name/name_no_prune in run order.",
+         "Sampling, not proof. Expected values come from the same code in a pristine process. total_time is excluded (probe only). One open known finding (X / X_no_prune name collision)."),
+ "C15": ("3.C15", "Seeded simulation of board generation inside a long-lived process shared with other users of the global PRNG and across restarts with seeded OS entropy: every board must be in range and identical to the one a never-used process produces; CLI files must be byte-identical to the empty-disk reference; every boundary value of the eight range checks must be refused with ValueError with no write-mode open and an unchanged disk; pooled loose-tile frequency over independent seeds within 6 sigma.",
+         "Sampling, not proof (boundary sweep is complete for the listed values). Frequency test pools only boards with distinct seeds."),
+ "C16": ("3.C16", "Seeded simulation of the solver CLI on one simulated disk: input files in five textual styles, directories and absolute paths; -s runs under seeded clock/log level/stack depth, with OSError at open/n-th write/close of the report or open/read of the input, Ctrl-C/kill at a seeded step inside report writing (torn or lost buffered data), planted longer/torn/garbage reports; after every normal exit exactly outputs/<stem>.txt changed and parses back, block by block and line by line, to the dict run_games returned in that invocation; the reader must produce exactly the games the text denotes; a faulted run may fail but never succeed silently, and the next clean run must repair the report.",
+         "Sampling, not proof. Oracle = run_games' own return value captured at the module attribute; report grammar = current labels."),
+ "C17": ("3.C17", "Seeded sequences of generator invocations on one simulated disk with whole-percent probabilities biased to neighbouring percentages, plus exhaustive sweeps k=1..99 of each probability field (CLI and manual entry point): every created path must state every parameter, and no path may ever be written by two different parameter sets (a silently lost file).",
+         "Random part is sampling; the k-sweeps are complete per field for one base parameter set. Name parsing is order-independent; the collision invariant is format-independent."),
 }
-PENDING = {k: "claimed in DESIGN.md; check under construction in this commit, will move to checks[]" for k in ("C11","C12","C15","C16","C17")}
+PENDING = {}
 NA = {
  "C01": "Pure function of (game, prune flag): no schedule, clock, fault or history to vary; needs an exact reference solver, i.e. a different technique.",
  "C02": "Pure function of the game: conditioned expected rewards depend on one input only; nothing for a simulator to interleave or fault.",
